@@ -112,9 +112,18 @@ pub fn case_strategy() -> impl Strategy<Value = Case> {
     (stream_in::stream_spec(7), stream_in::delivery()).prop_map(|(stream, delivery)| Case { stream, delivery })
 }
 
+fn long_case_strategy() -> impl Strategy<Value = Case> {
+    (stream_in::stream_spec(70), stream_in::delivery(), 2u8..10).prop_map(|(stream, mut delivery, block)| {
+        delivery.block = block;
+        Case { stream, delivery }
+    })
+}
+
 pub fn run(ctx: &Ctx, rep: &mut Report) {
     let cases = ctx.share(ctx.tier.pick(30_000, 1_500_000));
     engine::drive(ctx, rep, "random", case_strategy(), cases, check_case);
+    let cases = ctx.share(ctx.tier.pick(4_000, 200_000));
+    engine::drive(ctx, rep, "long-streams", long_case_strategy(), cases, check_case);
 }
 
 fn replay(_ctx: &Ctx, _group: &str, case: &Value) -> CaseResult {
